@@ -109,22 +109,26 @@ int main(int argc, char **argv) {
     for (int64_t v : {2147483646LL, 2147483647LL, 2147483648LL, 2147483649LL, 4294967294LL, 4294967295LL, 3000000000LL, 65535LL, 65536LL, 65537LL}) lits.push_back({std::to_string(v), v});
     for (int64_t v : {2147483647LL, 2147483648LL, 65536LL, 255LL, 256LL}) lits.push_back({"-" + std::to_string(v), -v});
     long bad = 0, n = 0; std::string firstLit, firstMn;
-    for (size_t i = 0; i < lits.size(); i++) {
-      const char *mn = MN[i % 12];
+    // source layouts around the literal: newline, nothing at all (the literal is the last thing in the file), CRLF, a
+    // tab and trailing comment, several blanks
+    static const char *TAIL[] = {"\n", "", "\r\n", "\t# comment\n", "   \n"};
+    for (size_t i0 = 0; i0 < lits.size() * 5; i0++) {
+      size_t i = i0 % lits.size(); const char *tail = TAIL[i0 / lits.size()];
+      const char *mn = MN[(i + i0 / lits.size()) % 12];
       n++;
       bool ok = false;
       try {
         hexasm::Lexer lexer; hexasm::Parser parser(lexer);
         // a preceding instruction with a different literal: a stale lexer value must not leak into the next number
-        lexer.loadBuffer(std::string("LDAC 9\n") + mn + " " + lits[i].first + "\n");
+        lexer.loadBuffer(std::string("LDAC 9\n") + mn + " " + lits[i].first + tail);
         auto program = parser.parseProgram();
         hexasm::CodeGen codeGen(program);
         std::ostringstream bin; codeGen.emitProgramBin(bin); std::string img = bin.str();
         size_t off = program[1]->getByteOffset(), sz = program[1]->getSize();
         unsigned opc = 0; uint32_t val = 0;
-        ok = sz >= 1 && sz <= 8 && off + sz <= img.size() && isa_decode_prefix(reinterpret_cast<const uint8_t *>(img.data()) + off, sz, &opc, &val) && opc == OPC[i % 12] && val == (uint32_t)lits[i].second;
+        ok = sz >= 1 && sz <= 8 && off + sz <= img.size() && isa_decode_prefix(reinterpret_cast<const uint8_t *>(img.data()) + off, sz, &opc, &val) && opc == OPC[(i + i0 / lits.size()) % 12] && val == (uint32_t)lits[i].second;
       } catch (std::exception &) { ok = false; }
-      if (!ok) { if (!bad) { firstLit = lits[i].first; firstMn = mn; } bad++; }
+      if (!ok) { if (!bad) { firstLit = lits[i].first + (i0 / lits.size() == 1 ? " (last thing in the file, no newline)" : i0 / lits.size() == 2 ? " (CRLF)" : i0 / lits.size() == 3 ? " (tab + comment)" : ""); firstMn = mn; } bad++; }
     }
     printf("{\"checked\": %ld, \"bad\": %ld, \"first_literal\": \"%s\", \"first_token\": \"%s\"}\n", n, bad, firstLit.c_str(), firstMn.c_str());
     return bad ? 1 : 0;
